@@ -499,6 +499,15 @@ def check_repo(ctx, rep: Report, repo, cases, with_model=True):
 
 
 # --------------------------------------------------------------------------- entry points
+def try_build(rep, fn, *args):
+    try:
+        return fn(*args)
+    except Exception as e:  # an honest init/snapshot failed on the implementation
+        rep.disagreements.append({'what': f'the honest repository could not be built on the implementation: {type(e).__name__}: {str(e)[:300]}',
+                                  'replay': {'args': [repr(a)[:60] for a in args[2:]]}})
+        return None
+
+
 def scenarios(ctx):
     quick = [(None, None, 'mem'), (('aes_gcm', None), None, 'mem'), (('chacha20_poly1305', None), None, 'mem'),
              (('aes_gcm', 128), {'name': 'sha2', 'bits': 256}, 'local')]
@@ -512,7 +521,9 @@ def scenarios(ctx):
 def run(ctx) -> Report:
     rep = Report(rule=RULE)
     for rid, (cipher, hashing, backend) in enumerate(scenarios(ctx)):
-        repo = build_repo(ctx.rng, ctx.scratch, rid, cipher, hashing, backend)
+        repo = try_build(rep, build_repo, ctx.rng, ctx.scratch, rid, cipher, hashing, backend)
+        if repo is None:
+            continue
         small = backend == 'local' and ctx.tier == 'quick'
         cases = gen_cases(ctx.rng, repo, n_sampled=ctx.scale(1, 6), n_pairs=ctx.scale(40 if small else 120, 600))
         if small:
@@ -520,7 +531,7 @@ def run(ctx) -> Report:
         cases += config_cases(ctx.rng, repo, ctx.scale(6, 40))
         check_repo(ctx, rep, repo, cases)
     for j, cipher in enumerate([('aes_gcm', None), ('chacha20_poly1305', None)]):
-        repo, case = self_backup_repo(ctx.rng, ctx.scratch, 50 + j, cipher)
+        repo, case = try_build(rep, self_backup_repo, ctx.rng, ctx.scratch, 50 + j, cipher) or (None, None)
         if repo is not None:
             check_repo(ctx, rep, repo, [case], with_model=False)
     return rep
@@ -534,7 +545,9 @@ def search(ctx, broken) -> Report:
         check_repo(ctx, rep, s['repo'], [s['case']], with_model=False)
     base = 100
     for rid, (cipher, hashing, backend) in enumerate(scenarios(ctx) * 2):
-        repo = build_repo(ctx.rng, ctx.scratch, base + rid, cipher, hashing, backend)
+        repo = try_build(rep, build_repo, ctx.rng, ctx.scratch, base + rid, cipher, hashing, backend)
+        if repo is None:
+            continue
         cases = gen_cases(ctx.rng, repo, n_sampled=8, n_pairs=500) + config_cases(ctx.rng, repo, 30)
         check_repo(ctx, rep, repo, cases, with_model=False)
     return rep
